@@ -10,7 +10,8 @@ for ln in open(os.path.join(ROOT, "DESIGN.md"), encoding="utf-8"):
     if not ln.startswith("| C") or ln.count("|") < 5:
         continue
     cells = [c.strip() for c in ln.strip().strip("|").split("|")]
-    rows[cells[0]] = cells[1:]
+    for key in cells[0].split(" / "):
+        rows[key.strip()] = cells[1:]
 
 
 def row_for(sid):
